@@ -12,65 +12,141 @@ import RTV.Lemmas.SpecDecI
 
 `RTV.Gen.specCases_*` are regenerated on every run from /repo/Specs (Python-supported cases of
 `Sequence/*/IpAddressModel*.json`, `GUIDModel*.json`, `HashtagModel*.json`, `MentionModel*.json`, `EmailModel*.json`,
-`URLModel*.json` (English and the cultures routed to the Chinese configuration), `Choice/English/BooleanModel*.json`), each with the
-fields the repository's own runner compares: number of results, TypeName, Text, Resolution.value and, for the sequence
-runner, Resolution.score when the spec states it.  The theorems say that the **model** — `RTV.Seq` / `RTV.Choice` on
-the regenerated regexes and the runtime tables, run as `IpAddressModel.parse` / `GUIDModel.parse` / `BooleanModel.parse`
-run the code (no preprocessing for IP, `QueryProcessor.preprocess` for GUID, `str.lower` inside the choice extractor) —
-produces exactly what each case expects.  `harness/lib/c19model.py` checks `implementation = model` on the same
-inputs; together: implementation = spec, with the model as kernel-checked intermediary.
+`URLModel*.json` (English and the cultures routed to the Chinese configuration), `Choice/English/BooleanModel*.json`), each
+with EVERY field the Specs state for a result: TypeName, Text, Start / End where given (17 URL cases per configuration),
+and every key of Resolution (`value`; `type` for IP; `score` for GUID and boolean).  This is the comparison the property
+states ("same count and order, text, type, offsets where given, and resolution fields") — more than the repository's
+own runner makes (count, TypeName, Text, Resolution.value, and the score for the sequence models; never Start / End,
+never Resolution.type, never the boolean score).
 
-(The boolean spec cases state scores such as `1.0` / `0.5`; `recognize_boolean` reports `0.0` for every entity — see
-`RTV.C20.reported_score_unit_interval` — and the repository's choice runner does not compare the score.  It is not
-part of the obligation here either; the difference is recorded in the C20 report.)
+The theorems say that the **model** — `RTV.Seq` / `RTV.Choice` on the regenerated regexes and the runtime tables, run
+as `IpAddressModel.parse` / `GUIDModel.parse` / `AbstractSequenceModel.parse` / `BooleanModel.parse` run the code,
+building the whole `ModelResult` (`RTV.Seq.SpecEnt`: type name, text, start, end, the resolution dict) — produces what
+each case expects (`entsAgree`: count, order, every stated field).  `harness/lib/c19model.py` checks
+`implementation = model` on the same inputs, on all of these fields; together: implementation = spec, with the model as
+kernel-checked intermediary.
+
+Two families do NOT meet the full statement, in one resolution field each (the code is modelled as it is):
+* IP: the Specs state `Resolution.type` (`ipv4` / `ipv6`) for every entity; `IpAddressModel.get_resolution` builds
+  `{'value', 'score': str(None)}` — no `type` key at all (`spec_ip_type_absent`).  Everything else agrees
+  (`spec_ip_cases_partial`).  Finding `spec-field:IpAddress:Resolution.type:absent`.
+* boolean: the Specs state the extractor's score (`1.0`, `0.5`, `0.64` …); `ChoiceParser.parse` builds a NEW
+  `ChoiceExtractDataResult(ext_result.data)` and reads its default score, so `recognize_boolean` reports `0.0` for every
+  entity (`spec_boolean_score_differs`).  Everything else agrees (`spec_boolean_cases_partial`).  Finding
+  `spec-field:Boolean:Resolution.score:default`.
+Neither field is compared by the repository's runner, which is why its spec suite passes.
 -/
 namespace RTV.C19
-open RTV.Seq RTV.Gen
+open RTV.Seq RTV.Gen RTV.Py
 
-/-- every supported English `IpAddressModel` case: the model's entities are the expected ones -/
-theorem spec_ip_cases : ipOK genSeqEnv false specCases_ipEn = true := by
-  rw [← fastSeqEnv_eq]; exact spec_ip_en_fast
+/- `FamilyAgrees skip run cases` (RTV/Lemmas/SpecRun.lean): for every case the recogniser returns (no exception)
+entities that agree with the expected ones in count, order, type name, text, offsets where given and every resolution
+field the case states, the keys in `skip` excepted (`entsAgree`). -/
 
-/-- every supported `IpAddressModel` case of the cultures routed to the Chinese configuration (zh-*, ja-*) -/
-theorem spec_ip_cases_zh : ipOK genSeqEnv true specCases_ipZh = true := by
-  rw [← fastSeqEnv_eq]; exact spec_ip_zh_fast
+/- FULL statement (fails for the code as it is, see `spec_ip_type_absent`):
+   `FamilyAgrees [] (fun q => some (ipModelRun genSeqEnv false q)) specCases_ipEn` -/
 
-/-- every supported `GUIDModel` case, score string (`'%g'`) included where the spec states it -/
-theorem spec_guid_cases : guidOK genSeqEnv specCases_guid = true := by
-  rw [← fastSeqEnv_eq]; exact spec_guid_fast
+/-- every supported English `IpAddressModel` case: count, order, type name, text and `Resolution.value` agree —
+every stated field except `Resolution.type` -/
+theorem spec_ip_cases_partial : FamilyAgrees [kType] (fun q => some (ipModelRun genSeqEnv false q)) specCases_ipEn := by
+  have h : ipOK genSeqEnv false specCases_ipEn = true := by rw [← fastSeqEnv_eq]; exact spec_ip_en_fast
+  exact (ipOK_spec _ _ _ h).1
 
-/-- every supported English `BooleanModel` case (type name, text, value — the runner's comparison) -/
-theorem spec_boolean_cases : boolOK RTV.Choice.genEnv specCases_bool = true := by
-  rw [← RTV.Choice.fastEnv_eq]; exact spec_bool_fast
+/-- NEGATIVE (finding `spec-field:IpAddress:Resolution.type:absent`): every expected entity of every English IP case
+states `Resolution.type`, and no entity the model (= the code) reports carries a `type` key; e.g. `1.1.1.1`:
+expected `{'value': '1.1.1.1', 'type': 'ipv4'}`, reported `{'value': '1.1.1.1', 'score': 'None'}` -/
+theorem spec_ip_type_absent : ∀ c ∈ specCases_ipEn,
+    (∀ e ∈ c.2, (lookupKey kType e.2.2.2.2).isSome = true) ∧
+    ∀ x ∈ ipModelRun genSeqEnv false c.1, lookupKey kType x.res = none := by
+  have h : ipOK genSeqEnv false specCases_ipEn = true := by rw [← fastSeqEnv_eq]; exact spec_ip_en_fast
+  exact (ipOK_spec _ _ _ h).2
 
-/-- every supported English `HashtagModel` case -/
-theorem spec_hashtag_cases :
-    simpleOK genSeqEnv hashtagRegex (RTV.Py.ofString "hashtag") specCases_hashtag = true := by
-  rw [← fastSeqEnv_eq]; exact spec_hashtag_fast
+/-- the same two statements for the `IpAddressModel` cases of the cultures routed to the Chinese configuration
+(zh-*, ja-*) -/
+theorem spec_ip_cases_zh_partial :
+    FamilyAgrees [kType] (fun q => some (ipModelRun genSeqEnv true q)) specCases_ipZh := by
+  have h : ipOK genSeqEnv true specCases_ipZh = true := by rw [← fastSeqEnv_eq]; exact spec_ip_zh_fast
+  exact (ipOK_spec _ _ _ h).1
 
-/-- every supported English `MentionModel` case -/
-theorem spec_mention_cases :
-    simpleOK genSeqEnv mentionRegex (RTV.Py.ofString "mention") specCases_mention = true := by
-  rw [← fastSeqEnv_eq]; exact spec_mention_fast
+theorem spec_ip_type_absent_zh : ∀ c ∈ specCases_ipZh,
+    (∀ e ∈ c.2, (lookupKey kType e.2.2.2.2).isSome = true) ∧
+    ∀ x ∈ ipModelRun genSeqEnv true c.1, lookupKey kType x.res = none := by
+  have h : ipOK genSeqEnv true specCases_ipZh = true := by rw [← fastSeqEnv_eq]; exact spec_ip_zh_fast
+  exact (ipOK_spec _ _ _ h).2
 
-/-- every supported English `EmailModel` case -/
-theorem spec_email_cases :
-    simpleOK genSeqEnv emailRegex (RTV.Py.ofString "email") specCases_email = true := by
-  rw [← fastSeqEnv_eq]; exact spec_email_fast
+/-- every supported `GUIDModel` case, every stated field: type name, text, `Resolution.value`, `Resolution.score`
+(the text `'%g' % score`) -/
+theorem spec_guid_cases : FamilyAgrees [] (fun q => some (guidModelRun genSeqEnv q)) specCases_guid := by
+  have h : guidOK genSeqEnv specCases_guid = true := by rw [← fastSeqEnv_eq]; exact spec_guid_fast
+  exact guidOK_spec _ _ h
 
-/-- every supported English `URLModel` case (three regexes, TLD check, ambiguous time terms, sweep) -/
-theorem spec_url_cases : urlSpecOK genSeqEnv false specCases_urlEn = true := by
-  rw [← fastSeqEnv_eq]
-  exact all_take_drop _ _ 23 spec_url_en_a_fast spec_url_en_b_fast
+/- FULL statement (fails for the code as it is, see `spec_boolean_score_differs`):
+   `FamilyAgrees [] (boolModelRun RTV.Choice.genEnv) specCases_bool` -/
 
-/-- every supported `URLModel` case of the cultures routed to the Chinese configuration (zh-*, ja-*) -/
-theorem spec_url_cases_zh : urlSpecOK genSeqEnv true specCases_urlZh = true := by
-  rw [← fastSeqEnv_eq]
-  exact all_take_drop _ _ 21 spec_url_zh_a_fast spec_url_zh_b_fast
+/-- every supported English `BooleanModel` case: no exception; count, order, type name, text and `Resolution.value`
+agree — every stated field except `Resolution.score` -/
+theorem spec_boolean_cases_partial : FamilyAgrees [kScore] (boolModelRun RTV.Choice.genEnv) specCases_bool := by
+  have h : boolOK RTV.Choice.genEnv specCases_bool = true := by rw [← RTV.Choice.fastEnv_eq]; exact spec_bool_fast
+  exact (boolOK_spec _ _ h).1
+
+/-- NEGATIVE (finding `spec-field:Boolean:Resolution.score:default`): for every entity of every boolean case the
+Specs state a score and the reported score (`0.0`, the default of a freshly built `ChoiceExtractDataResult`) is another
+one; e.g. `Sure!`: expected `1.0`, reported `0.0` -/
+theorem spec_boolean_score_differs : ∀ c ∈ specCases_bool, ∃ m, boolModelRun RTV.Choice.genEnv c.1 = some m ∧
+    ∀ p ∈ m.zip c.2, (lookupKey kScore p.2.2.2.2.2).isSome = true ∧
+      lookupKey kScore p.1.res ≠ lookupKey kScore p.2.2.2.2.2 := by
+  have h : boolOK RTV.Choice.genEnv specCases_bool = true := by rw [← RTV.Choice.fastEnv_eq]; exact spec_bool_fast
+  exact (boolOK_spec _ _ h).2
+
+/-- every supported English `HashtagModel` case, every stated field -/
+theorem spec_hashtag_cases : FamilyAgrees []
+    (fun q => some (simpleModelRun genSeqEnv hashtagRegex (ofString "hashtag") q)) specCases_hashtag := by
+  have h : simpleOK genSeqEnv hashtagRegex (ofString "hashtag") specCases_hashtag = true := by
+    rw [← fastSeqEnv_eq]; exact spec_hashtag_fast
+  exact simpleOK_spec _ _ _ _ h
+
+/-- every supported English `MentionModel` case, every stated field -/
+theorem spec_mention_cases : FamilyAgrees []
+    (fun q => some (simpleModelRun genSeqEnv mentionRegex (ofString "mention") q)) specCases_mention := by
+  have h : simpleOK genSeqEnv mentionRegex (ofString "mention") specCases_mention = true := by
+    rw [← fastSeqEnv_eq]; exact spec_mention_fast
+  exact simpleOK_spec _ _ _ _ h
+
+/-- every supported English `EmailModel` case, every stated field -/
+theorem spec_email_cases : FamilyAgrees []
+    (fun q => some (simpleModelRun genSeqEnv emailRegex (ofString "email") q)) specCases_email := by
+  have h : simpleOK genSeqEnv emailRegex (ofString "email") specCases_email = true := by
+    rw [← fastSeqEnv_eq]; exact spec_email_fast
+  exact simpleOK_spec _ _ _ _ h
+
+/-- every supported English `URLModel` case (three regexes, TLD check, ambiguous time terms, sweep), every stated
+field — Start and End included where the case gives them -/
+theorem spec_url_cases : FamilyAgrees [] (fun q => some (urlSpecRun genSeqEnv false q)) specCases_urlEn := by
+  have h : urlSpecOK genSeqEnv false specCases_urlEn = true := by
+    rw [← fastSeqEnv_eq]
+    exact all_take_drop _ _ 23 spec_url_en_a_fast spec_url_en_b_fast
+  exact urlSpecOK_spec _ _ _ h
+
+/-- every supported `URLModel` case of the cultures routed to the Chinese configuration (zh-*, ja-*), every stated
+field — Start and End included where the case gives them -/
+theorem spec_url_cases_zh : FamilyAgrees [] (fun q => some (urlSpecRun genSeqEnv true q)) specCases_urlZh := by
+  have h : urlSpecOK genSeqEnv true specCases_urlZh = true := by
+    rw [← fastSeqEnv_eq]
+    exact all_take_drop _ _ 21 spec_url_zh_a_fast spec_url_zh_b_fast
+  exact urlSpecOK_spec _ _ _ h
 
 /-- the case lists are not empty (the obligations are not vacuous) -/
 theorem spec_case_counts : specCases_ipEn.length ≥ 30 ∧ specCases_ipZh.length ≥ 30 ∧ specCases_guid.length ≥ 10 ∧
     specCases_bool.length ≥ 10 ∧ specCases_hashtag.length ≥ 5 ∧ specCases_mention.length ≥ 5 ∧
     specCases_email.length ≥ 10 ∧ specCases_urlEn.length ≥ 30 ∧ specCases_urlZh.length ≥ 30 := by decide
+
+/-- … and they state the fields the theorems are about: expected entities with offsets (URL), with a `type` (IP),
+with a score (GUID, boolean) -/
+theorem spec_field_counts :
+    (specCases_urlEn.flatMap (·.2)).countP (fun e => e.2.2.1.isSome && e.2.2.2.1.isSome) ≥ 10 ∧
+    (specCases_urlZh.flatMap (·.2)).countP (fun e => e.2.2.1.isSome && e.2.2.2.1.isSome) ≥ 10 ∧
+    (specCases_ipEn.flatMap (·.2)).countP (fun e => (lookupKey kType e.2.2.2.2).isSome) ≥ 15 ∧
+    (specCases_guid.flatMap (·.2)).countP (fun e => (lookupKey kScore e.2.2.2.2).isSome) ≥ 10 ∧
+    (specCases_bool.flatMap (·.2)).countP (fun e => (lookupKey kScore e.2.2.2.2).isSome) ≥ 10 := by decide +kernel
 
 end RTV.C19
